@@ -159,15 +159,10 @@ impl Repl {
         let input_taken = input_taken + "\n" + &line;
 
         if self.depth < 0 {
-            let loc = self.loc.clone();
-            let result = parse_sexp(loc, input_taken.bytes())
-                .map(|_v| {
-                    panic!("too many parens but parsed anyway");
-                })
-                .err_into();
-            self.input_exp = "".to_string();
+            // Close parens in strings, comments and words are counted too, so
+            // text with a negative count may still be well formed.  Let the
+            // parser decide: it reports the unmatched paren if there is one.
             self.depth = 0;
-            return result;
         }
 
         if self.depth > 0 {
